@@ -34,7 +34,7 @@ func genValid(c *choice.Ctx, kind int, allowBadUTF8 bool) *refmodel.Claims {
 func genValidOpt(c *choice.Ctx, kind int, allowBadUTF8, lean bool) *refmodel.Claims {
 	textClasses, vsiClasses := textClasses, vsiClasses
 	if lean {
-		textClasses, vsiClasses = textClasses[:4], vsiClasses[:3]
+		textClasses, vsiClasses = textClasses[:4], append(append([]string{}, vsiClasses[:3]...), "HTTPS://Verifier.EXAMPLE:443/a b/./c#")
 	}
 	a := &refmodel.Claims{}
 	switch kind {
